@@ -689,6 +689,9 @@ VARIANTS += [
       replace=sub(UPLOAD_NESTED, '\treturn packSignatureManifest(ctx, c.GraphTarget, configDesc, blobDesc, subject, annotations)\n',
                   '\tif _, err := packSignatureManifest(ctx, c.GraphTarget, configDesc, blobDesc, subject, annotations); err != nil {\n\t\treturn ocispec.Descriptor{}, err\n\t}\n\treturn configDesc, nil\n'),
       why='the function in the middle hands up the config descriptor instead of the packed manifest\'s'),
+ dict(name='shape-push-nested-pack-config-error-ignored', file=R, expect='flagged(push/options/config)', find=UPLOAD0,
+      replace=sub(UPLOAD_NESTED, '\tconfigDesc, err := pushNotationManifestConfig(ctx, c.GraphTarget)\n\tif err != nil {\n\t\treturn ocispec.Descriptor{}, fmt.Errorf("failed to push notation manifest config: %w", err)\n\t}\n', '\tconfigDesc, _ := pushNotationManifestConfig(ctx, c.GraphTarget)\n'),
+      why='the config descriptor reaches the packing helper as an argument; the error of the call that delivered it no longer gates the call down'),
  dict(name='shape-push-nested-pack-version', file=R, expect='flagged(push/pack-version)', find=UPLOAD0,
       replace=sub(UPLOAD_NESTED, 'oras.PackManifestVersion1_1', 'oras.PackManifestVersion1_0')),
  # -- class A: the upload in a helper
@@ -712,6 +715,22 @@ VARIANTS += [
       why='one of the accessor\'s returns is a store that is not the repository\'s target'),
  dict(name='shape-blob-store-accessor-of-other-client', file=R, expect='flagged(fetch/blob-store)', find=BLOBFETCH0,
       replace='\tsigBlob, err := content.FetchAll(ctx, (&repositoryClient{}).blobStorage(), sigBlobDesc)\n', edits=[tail(BLOBSTORE)]),
+]
+
+BLOBSTORE_FN = r'''// blobStoreOf returns the store that holds the blobs of target
+func blobStoreOf(target oras.GraphTarget) content.Fetcher {
+	repo, ok := target.(registry.Repository)
+	if !ok {
+		return target
+	}
+	return repo.Blobs()
+}
+'''
+VARIANTS += [
+ dict(name='shape-blob-store-function', file=R, expect='silent', find=BLOBFETCH0,
+      replace='\tsigBlob, err := content.FetchAll(ctx, blobStoreOf(c.GraphTarget), sigBlobDesc)\n', edits=[tail(BLOBSTORE_FN)]),
+ dict(name='shape-blob-store-function-manifest-store', file=R, expect='flagged(fetch/blob-store)', find=BLOBFETCH0,
+      replace='\tsigBlob, err := content.FetchAll(ctx, blobStoreOf(c.GraphTarget), sigBlobDesc)\n', edits=[tail(sub(BLOBSTORE_FN, 'return repo.Blobs()', 'return repo.Manifests()'))]),
 ]
 
 # -- class C: the per-iteration work of the listing in a helper handing back a record
